@@ -49,9 +49,9 @@ func defFor(check string) *checkDef {
 		return &checkDef{property: "C08", level: "exploration", timeout: 300 * time.Second,
 			variants: []string{"C08", "C08merge"},
 			budget:   map[string]tierCfg{"quick": {700, 75}, "thorough": {40000, 1500}},
-			rule:     "one simulated run per seed (0-18 operations per client, so the empty corpus occurs; file-system or in-memory directory, ice v1/v2, safe/unsafe, every second run merge-heavy) ends in build A = whatever layout the schedule produced (segmentation, pending deletions, merged or not); A is also read through Backup + OpenReader and, after Close, reopened from disk. The abstract index's live documents are then written as builds B: one in-memory batch (the reference), a seeded permutation, one document per batch without merges, one per batch with the default merge plan, the other segment format, all three query optimisations disabled, OfflineWriter with a seeded batch size, and partitioned over 2-4 indexes searched with MultiSearch. For 10-19 seeded queries per run drawn from all public query types (term, match or/and, phrase and multi-phrase with slop, prefix, wildcard, regexp, fuzzy, term/numeric/date ranges with both inclusivities, geo box and distance, match-all/none, booleans nested to depth 2 with must/should/must-not and min-should; plain terms of uid, _id, tag, _all and body aimed at existing documents, and flat conjunctions / disjunctions of 2-4 of them, the shapes the bitmap rewrites take over) every build must give the same match set (by uid), the same stored fields, the same order under the total sort -num,tag,-day,uid and the same aggregations (count, sum, min, max, avg, terms with nested sum); every query is repeated with scoring turned off (SetScore none: unadorned conjunction/disjunction rewrites) and must match the same set as the scored reference; scores are compared exactly between builds without merged segments and without pending deletions; for the merged build a score difference is the listed known finding. distinct = distinct release sequences of run A; non-trivial = background step interleaved between client operations",
+			rule:     "one simulated run per seed (0-18 operations per client, so the empty corpus occurs; file-system or in-memory directory, ice v1/v2, safe/unsafe, every second run merge-heavy) ends in build A = whatever layout the schedule produced (segmentation, pending deletions, merged or not); A is also read through Backup + OpenReader and, after Close, reopened from disk. The abstract index's live documents are then written as builds B: one in-memory batch (the reference), a seeded permutation, one document per batch without merges, one per batch with the default merge plan, the other segment format, all three query optimisations disabled, OfflineWriter with a seeded batch size, and partitioned over 2-4 indexes searched with MultiSearch; in half of the runs the offline writer is also compared with the one-batch build on a corpus of its own (9-48 generated documents, 1-3 per offline batch: 3-48 offline segments, across its merge fan-in of 10). For 10-19 seeded queries per run drawn from all public query types (term, match or/and, phrase and multi-phrase with slop, prefix, wildcard, regexp, fuzzy, term/numeric/date ranges with both inclusivities, geo box and distance, match-all/none, booleans nested to depth 2 with must/should/must-not and min-should; plain terms of uid, _id, tag, _all and body aimed at existing documents, and flat conjunctions / disjunctions of 2-4 of them, the shapes the bitmap rewrites take over) every build must give the same match set (by uid), the same stored fields, the same order under the total sort -num,tag,-day,uid and the same aggregations (count, sum, min, max, avg, terms with nested sum); every query is repeated with scoring turned off (SetScore none: unadorned conjunction/disjunction rewrites) and must match the same set as the scored reference; scores are compared exactly between builds without merged segments and without pending deletions; for the merged build a score difference is the listed known finding. distinct = distinct release sequences of run A; non-trivial = background step interleaved between client operations",
 			assume:   commonAssume,
-			probes:   []string{"diff-reference-builds", "diff-comparisons", "diff-score-comparisons", "diff-score-none-comparisons", "diff-flat-term-conjunction-with-matches", "diff-builds-run-layout", "diff-builds-backup-restored", "diff-builds-reopened-from-disk", "diff-recipe-rounds"}}
+			probes:   []string{"diff-reference-builds", "diff-comparisons", "diff-score-comparisons", "diff-score-none-comparisons", "diff-flat-term-conjunction-with-matches", "diff-builds-run-layout", "diff-builds-backup-restored", "diff-builds-reopened-from-disk", "diff-recipe-rounds", "diff-offline-sizes-comparisons", "diff-offline-more-than-10-segments"}}
 	case "C08merge":
 		return defFor("C08")
 	case "C19", "C19sizes":
